@@ -42,6 +42,25 @@ class Rec(decimal.Decimal):
         return self
 
 
+class TextReal:
+    """a real-number class outside Python's numbers tower: keeps the text, compares by value"""
+    def __init__(self, text):
+        self.text = str(text)
+        self.value = float(self.text)
+
+    def __float__(self):
+        return self.value
+
+    def __eq__(self, o):
+        return isinstance(o, TextReal) and (self.value == o.value or (self.value != self.value and o.value != o.value))
+
+    def __hash__(self):
+        return hash(("TextReal", self.value))
+
+    def __repr__(self):
+        return "TextReal(%r)" % self.text
+
+
 def walk(v, path, out):
     out.append((path, v))
     if isinstance(v, (PVLModule, PVLGroup, PVLObject)):
@@ -64,13 +83,17 @@ def erase(v):
     if isinstance(v, frozenset): return frozenset(erase(x) for x in v)
     if isinstance(v, set): return set(erase(x) for x in v)
     if isinstance(v, decimal.Decimal): return float(v)
+    if isinstance(v, TextReal): return v.value
     return v
 
 
 def load_with(cfg, text, subst):
     pc, gc, dc, _ = io.CONFIGS[cfg]
     g = gc()
-    if subst:
+    if subst == "text":
+        d = dc(grammar=g, real_cls=TextReal, quantity_cls=Q2)
+        p = pc(grammar=g, decoder=d, module_class=Mod, group_class=Grp, object_class=Obj)
+    elif subst:
         d = dc(grammar=g, real_cls=Rec, quantity_cls=Q2)
         p = pc(grammar=g, decoder=d, module_class=Mod, group_class=Grp, object_class=Obj)
     else:
@@ -117,6 +140,18 @@ def run(ctx):
                            "cfg": cfg, "text": text}
                 continue
             stats[cfg + ":ok"] += 1
+            if i % 3 == 0:
+                # a second substitute real class, one that is not a numbers.Number
+                try:
+                    sub2 = load_with(cfg, text, "text")
+                    if io.py_to_j(erase(sub2)) != io.py_to_j(base) and bad is None:
+                        from .c03 import first_diff
+                        bad = {"what": "with a real class outside the numbers tower the result differs otherwise: "
+                                       + first_diff(io.py_to_j(erase(sub2)), io.py_to_j(base)), "cfg": cfg, "text": text}
+                except Exception as e:
+                    if bad is None:
+                        bad = {"what": "with a real class outside the numbers tower the load fails (%s) where the "
+                                       "plain load succeeds" % type(e).__name__, "cfg": cfg, "text": text}
             nodes = []
             walk(sub, (), nodes)
             why = None
